@@ -817,14 +817,15 @@ func (g *repoGen) query(dump []def.Task) def.TaskQueryParam {
 			v := rng.Pick(r, g.vals())
 			if mv, ok := m[k]; ok && r.Chance(2, 3) {
 				v = mv
-				if len(v) > 1 && r.Chance(1, 2) {
+				// cut at rune boundaries: strings stay valid UTF-8 (an assumption of the model, see REPO_ASSUME)
+				if rs := []rune(v); len(rs) > 1 && r.Chance(1, 2) {
 					switch r.Intn(3) {
 					case 0:
-						v = v[:len(v)-1]
+						v = string(rs[:len(rs)-1])
 					case 1:
-						v = v[1:]
+						v = string(rs[1:])
 					case 2:
-						v = v[1 : len(v)-0]
+						v = string(rs[1 : len(rs)-0])
 					}
 				}
 			}
